@@ -267,5 +267,39 @@ pub async fn run(args: &Args) {
             Err(e) => out.violation("nested hashBy balancers are rejected".into(), serde_json::json!(e.to_string())),
         }
     }
+    // the same hash-by balancer reached directly and as a member of another balancer: the member chosen for a key is the same
+    {
+        out.case();
+        let recs = members(3);
+        let pool = serde_json::json!({"name": "pool", "type": "loadbalance", "connectors": ["m0", "m1", "m2"], "algo": {"hashBy": "request.target.host"}});
+        let front = serde_json::json!({"name": "front", "type": "loadbalance", "connectors": ["pool"], "algo": "rr"});
+        let front2 = serde_json::json!({"name": "front2", "type": "loadbalance", "connectors": ["front"], "algo": "random"});
+        match make_state(&recs, &[pool, front, front2]).await {
+            Ok(state) => {
+                let mut by_key: std::collections::HashMap<String, std::collections::HashSet<usize>> = Default::default();
+                for i in 0..300 {
+                    let mut rq = rand_req(&mut rng);
+                    let host = format!("k{}.example", i % 23);
+                    rq.target = TargetAddress::DomainPort(host.clone(), 443);
+                    let entry = ["pool", "front", "front2"][i % 3];
+                    let lb = state.connectors.get(entry).unwrap().clone();
+                    let ctx = make_ctx(&state, &rq).await;
+                    let id = ctx.read().await.props().id;
+                    let _ = lb.connect(state.clone(), ctx).await;
+                    for (mi, r) in recs.iter().enumerate() {
+                        if r.take().contains(&id) {
+                            by_key.entry(host.clone()).or_default().insert(mi);
+                        }
+                    }
+                }
+                let bad: Vec<_> = by_key.iter().filter(|(_, v)| v.len() > 1).map(|(k, v)| serde_json::json!({"key": k, "members": v.iter().collect::<Vec<_>>()})).collect();
+                if !bad.is_empty() {
+                    out.violation("hashBy: the member chosen for a key depends on the path by which the balancer was reached".into(), serde_json::json!({"examples": bad.into_iter().take(4).collect::<Vec<_>>()}));
+                }
+                out.nontrivial(&"hashby-reached-at-several-depths");
+            }
+            Err(e) => out.violation("a hash-by balancer nested in other balancers is rejected".into(), serde_json::json!(e.to_string())),
+        }
+    }
     out.finish();
 }
